@@ -42,7 +42,7 @@ PROPS = {
     "C07": {"level": "model_checking", "bounds_text": BT, "G": G(["rt", "from"], "^Harness_(RT|From)_", "^C07/", programs="oneof|empty|mini"),
             "K": [K("^Harness_K10_", "^C07/")]},
     "C06": {"level": "model_checking", "bounds_text": BT,
-            "G": G(["corrupt"], "^Harness_Corrupt", "^C06/", programs={"quick": "mini|embed$|scal-S1|time|cast|flags", "thorough": "mini|nest$|embed$|oneof$|scal-S1|time|cast|flags|names|multi"}, gosym=["-prune=false", "-solver", "z3-new"])},
+            "G": G(["corrupt"], "^Harness_Corrupt", "^C06/", programs={"quick": "mini|embed$|scal-S1|time|cast|flags|mapnest", "thorough": "mini|nest$|embed$|oneof$|scal-S1|time|cast|flags|names|multi|mapnest|deep"}, gosym=["-prune=false", "-solver", "z3-new"])},
     "C05": {"level": "model_checking", "bounds_text": BT, "G": G(["from"], "^Harness_From_", "^C05/")},
     "C08": {"level": "model_checking", "bounds_text": BT, "G": G(["echo"], "^Harness_Echo_", "^C08/")},
     "C09": {"level": "model_checking", "bounds_text": BT, "G": G(["refresh"], "^Harness_Refresh_", "^C09/")},
